@@ -28,6 +28,8 @@ for m in sorted(glob.glob("/verif/seeded/*/meta.json")):
     first += 1 if j.get("caught_before_any_rule_change") else 0
     c = j.get("confirmed") or {}
     dets = ", ".join(sorted(set("%s" % d["check"] for d in j["detected_by"] if d["exit"] == 1))) or "**missed**"
+    if j.get("obsolete"):
+        dets = "(obsolete: " + j["obsolete"] + ") formerly " + dets
     rules = sorted(set(re.search(r"rule (\S+ \S+)", r).group(1) for d in j["detected_by"] for r in d["reports"] if re.search(r"rule (\S+ \S+)", r)))
     t.append("| %s | %s | %s | see `seeded/%s/NOTES.md` | %s/%s, %s | %s (%s) | %s%s |" % (
         j["id"], j["property"], j["title"].replace("|", "/")[:140], j["id"], c.get("demo_on_head"), c.get("demo_with_change"),
